@@ -220,11 +220,8 @@ func asymptotic_bessel_i_large_x_log(v, x float64) float64 {
   denom *= ex * 3
   s     -= num / denom
 
-  e := math.Exp(x/2)
-
-  s = e * (e * s / math.Sqrt(2.0 * x * math.Pi))
-
-  return s
+  // result on log scale: log(exp(x) s / sqrt(2 pi x))
+  return x + math.Log(s) - 0.5*math.Log(2.0 * x * math.Pi)
 }
 
 /* -------------------------------------------------------------------------- */
